@@ -37,7 +37,8 @@ def describe(tier):
         "over {0,1} and EVERY common value 0..2 per dimension; calls: count/valid_count/sum/mean x policy x a weight/fact menu (none, scalar, array with missing; "
         "1- and 2-column facts with a missing cell). Checks for both cube types: result.shape == extra extents (dimension order, then axis order) + category extents "
         "(+ fact columns); for every extra-coordinate combination the block equals the same aggregate computed by the library from the harness-sliced 1-D "
-        "dimensions; index cube and array cube agree. Non-trivial: two different extra coordinates select slices with different data. Distinct = distinct (config, data, commons, call).",
+        "dimensions; index cube and array cube agree; the statistics only the array cube offers (max/min, quantile, stddev, covariance, corrcoef; 1- and 2-column facts, weighted and not) are checked the same way, "
+        "block by block, with their trailing column / matrix axes. Non-trivial: two different extra coordinates select slices with different data. Distinct = distinct (config, data, commons, call).",
         "bounds": {"configs": [(n, ex) for n, ex in CONFIGS[tier]], "E": E},
         "exhaustive": True,
         "assumptions": ["3-axis indexes are built by the harness builder"],
@@ -152,6 +153,64 @@ def check(denses, commons, N, acc, base, only_call=None):
         yield call
 
 
+def stat_menu(N):
+    """The statistics only the array cube offers: (name, thunk(cube) -> (values, validity), trailing shape)."""
+    f1 = numpy.array([3.0, 1.0, 2.0][:N])
+    f1m = f1.copy()
+    if N:
+        f1m[0] = Q.NaN
+    f2 = numpy.array([[1.0, 7.0], [4.0, 2.0], [2.0, 11.0]][:N]).reshape((N, 2))
+    w = numpy.array([0.5, 1.0, 2.0][:N])
+    fmt = (0, False)
+    return [
+        ("max", lambda c: c.max(f1.copy(), False, fmt), ()),
+        ("min-ignoring", lambda c: c.min(f1m.copy(), True, fmt), ()),
+        ("max-2col", lambda c: c.max(f2.copy(), False, fmt), (2,)),
+        ("quantile", lambda c: c.quantile(f1.copy(), 0.5, None, False, fmt), ()),
+        ("quantile-w-2col", lambda c: c.quantile(f2.copy(), 0.25, w.copy(), True, fmt), (2,)),
+        ("stddev", lambda c: c.stddev(f1.copy(), None, False, fmt), ()),
+        ("stddev-w-2col", lambda c: c.stddev(f2.copy(), w.copy(), True, fmt), (2,)),
+        ("covariance", lambda c: c.covariance(f2.copy(), None, False, fmt), (2, 2)),
+        ("covariance-w", lambda c: c.covariance(f2.copy(), w.copy(), True, fmt), (2, 2)),
+        ("corrcoef", lambda c: c.corrcoef(f2.copy(), None, False, fmt), (2, 2)),
+    ]
+
+
+def check_stats(denses, N, acc, base):
+    """`every aggregate`: the statistics of the array cube alone, block by block against the cube of the harness-sliced 1-D dimensions."""
+    from catii.xcubes import xcube
+
+    D = len(denses)
+    shape = (E + 1,) * D
+    scaffold = M.scaffold_of(denses)
+    for name, thunk, trail in stat_menu(N):
+        case = dict(base, stat=name)
+        try:
+            v, ok = thunk(xcube(denses, interacting_shape=shape))
+            v, ok = numpy.asarray(v), numpy.asarray(ok).astype(bool)
+        except Exception as e:  # noqa
+            acc.violation("xcube:%s:raised" % name, case, repr(e))
+            continue
+        acc.count("xcube_stat_evals")
+        want_shape = scaffold + shape + trail
+        if tuple(v.shape) != tuple(want_shape) or tuple(ok.shape) != tuple(want_shape):
+            acc.violation("xcube:%s:shape" % name, case, "result shape %r / %r, expected extra extents %r + categories %r + %r" % (v.shape, ok.shape, scaffold, shape, trail))
+            continue
+        for fc in itertools.product(*[range(e) for e in scaffold]):
+            sub = M.sub_dims(denses, fc)
+            try:
+                sv, sok = thunk(xcube([numpy.ascontiguousarray(s) for s in sub], interacting_shape=shape))
+                sv, sok = numpy.asarray(sv), numpy.asarray(sok).astype(bool)
+            except Exception as e:  # noqa
+                acc.violation("xcube:%s:subcube-raised" % name, dict(case, block=list(fc)), repr(e))
+                continue
+            bv, bok = v[fc], ok[fc]
+            if bv.shape != sv.shape or not numpy.array_equal(bok, sok) or not numpy.allclose(bv[sok].astype(float), sv[sok].astype(float), rtol=1e-9, atol=1e-12):
+                acc.violation("xcube:%s:block" % name, dict(case, block=list(fc)), "block at extra coords %r: values %r validity %r; cube of the 1-D slices: %r / %r" % (
+                    fc, bv.tolist(), bok.astype(int).tolist(), sv.tolist(), sok.astype(int).tolist()))
+                break
+
+
 def nontrivial(denses):
     for d in denses:
         if d.ndim > 1 and d.size:
@@ -170,6 +229,8 @@ def run_block(family, p, acc):
         commons = [c for d, c in combo]
         base = {"N": N, "extras": extras, "data": [d.tolist() for d in denses], "commons": commons, "tier": p["tier"]}
         nt = nontrivial(denses)
+        if commons == [c for c in commons if c == 0]:
+            check_stats(denses, N, acc, base)     # the array cube does not depend on the common values: once per data
         for call in check(denses, commons, N, acc, base):
             acc.case((p["ci"], tuple(d.tobytes() for d in denses), tuple(commons), call), nontrivial=nt, outcome=(call[0], len(extras)), sample=lambda: dict(base, call=call))
 
@@ -180,6 +241,11 @@ def replay(case, site=None):
     acc = Acc(ID, [], stop_at_first=False)
     N, extras = case["N"], case["extras"]
     denses = [numpy.array(d, dtype=numpy.int64).reshape((N,) + tuple(ex)) for d, ex in zip(case["data"], extras)]
+    if "stat" in case:
+        check_stats(denses, N, acc, {"N": N, "extras": extras})
+        for v in acc.violations:
+            print("  %s :: %s" % (v["site"], v["detail"][:700]))
+        return bool(acc.violations)
     call = (case["agg"], case["ignore"], c03._tupleize(case["weights"]), c03._tupleize(case["fact"]) if case["fact"] is not None else None)
     list(check(denses, case["commons"], N, acc, {"N": N, "extras": extras}, only_call=call))
     for v in acc.violations:
